@@ -1345,6 +1345,15 @@ class Operation(_IRNode):
             value_mapper[self_result] = cloned_result
             if clone_name_hints:
                 cloned_result.name_hint = self_result.name_hint
+        if clone_operands and any(
+            isinstance(operand, OpResult) and operand.op is self
+            for operand in self._operands
+        ):
+            # The operation uses one of its own results (possible in graph regions):
+            # these operands can only be remapped once the results are registered.
+            cloned_op.operands = tuple(
+                value_mapper.get(operand, operand) for operand in self._operands
+            )
         return cloned_op
 
     def clone(
